@@ -39,18 +39,20 @@ func (f *PFile) specNamed() bool {
 }
 
 type Pop struct {
-	Root     string
-	Phys     []string // physical directories (absolute, clean)
-	Exists   []bool   // whether the physical directory exists
-	Conf     []string // configured list as passed to WithSpecDirs (possibly non-clean, repeated)
-	ConfPhys []int    // physical index of each configured entry
-	Files    []*PFile
-	nmarker  int
-	Protect  int            // physical directory that Step never removes or populates (-1: none)
-	DirFault map[int]string // physical index -> isfile | enotdir | noread | nosearch (C13)
-	Opt      PopOpt
-	Kinds    [][2]string
-	DevPool  []string
+	Root            string
+	Phys            []string // physical directories (absolute, clean)
+	Exists          []bool   // whether the physical directory exists
+	Conf            []string // configured list as passed to WithSpecDirs (possibly non-clean, repeated)
+	ConfPhys        []int    // physical index of each configured entry
+	Files           []*PFile
+	nmarker         int
+	Protect         int            // physical directory that Step never removes or populates (-1: none)
+	Force           []int          // operations the next calls of Step have to make (6: a directory leaves, 7: a missing one comes back, 0: a file is added)
+	ForceRenameAway bool           // with Force 6: the directory leaves by being renamed away
+	DirFault        map[int]string // physical index -> isfile | enotdir | noread | nosearch (C13)
+	Opt             PopOpt
+	Kinds           [][2]string
+	DevPool         []string
 }
 
 // PopOpt tunes the generated Spec files.
@@ -295,8 +297,18 @@ func (p *Pop) Step(r *rand.Rand) string {
 			exist = append(exist, i)
 		}
 	}
+	forced := len(p.Force) > 0
+	defer func() {
+		if forced && len(p.Force) > 0 {
+			p.Force = p.Force[1:]
+		}
+	}()
 	for tries := 0; tries < 20; tries++ {
-		switch op := r.Intn(8); op {
+		op := r.Intn(8)
+		if forced {
+			op = p.Force[0]
+		}
+		switch op {
 		case 0, 1: // add a file
 			if len(exist) == 0 {
 				continue
@@ -378,12 +390,12 @@ func (p *Pop) Step(r *rand.Rand) string {
 			p.Files[i] = &nf
 			return fmt.Sprintf("rename %s -> %s", oldPath, p.path(&nf))
 		case 6: // remove a whole directory
-			if len(exist) < 2 || !chance(r, 40) {
+			if len(exist) < 2 || (!forced && !chance(r, 40)) {
 				continue
 			}
 			d := exist[r.Intn(len(exist))]
 			how := "rmdir"
-			if chance(r, 40) {
+			if chance(r, 40) || (forced && p.ForceRenameAway) {
 				// the directory leaves by being renamed away, content and all
 				how = "rename-dir-away"
 				p.nmarker++
